@@ -1,6 +1,7 @@
 pub mod c05;
 pub mod cells;
 pub mod frame;
+pub mod golden;
 pub mod proj;
 pub mod graph;
 pub mod hilbert;
@@ -11,9 +12,11 @@ pub mod sets;
 use crate::ev::{Report, Viol};
 use serde_json::Value;
 
-pub fn run(prop: &str, tier: &str) -> Option<Report> {
+pub fn run(prop: &str, tier: &str, verif_dir: &str) -> Option<Report> {
+    let _ = verif_dir;
     Some(match prop {
         "C05" => c05::run(tier),
+        "C06" => golden::run(tier, verif_dir),
         "C07" => graph::run_c07(tier),
         "C20" => graph::run_c20(tier),
         "C08" => sets::run(8, tier),
@@ -34,9 +37,11 @@ pub fn run(prop: &str, tier: &str) -> Option<Report> {
     })
 }
 
-pub fn replay(prop: &str, case: &Value) -> Option<Vec<Viol>> {
+pub fn replay(prop: &str, case: &Value, verif_dir: &str) -> Option<Vec<Viol>> {
+    let _ = verif_dir;
     Some(match prop {
         "C05" => c05::replay(case),
+        "C06" => golden::replay(case, verif_dir),
         "C07" => graph::replay_c07(case),
         "C08" => sets::replay(8, case),
         "C09" => sets::replay(9, case),
